@@ -98,6 +98,7 @@ int gb_check(gbuf_t* g, long* where);
 void gb_free(gbuf_t* g);
 // pre-fill the user area with pattern id (0: 0x00, 1: 0xFF, 2: signalling NaN pattern, 3: noise)
 void gb_prefill(gbuf_t* g, int pattern, uint64_t seed);
+void fill_pattern(uint8_t* p, size_t n, int pattern, uint64_t seed);  // the pre-fill patterns, on any region
 
 // limb vector of int64 (vec_znx): `size` limbs of `n` words with stride `sl` words; the padding
 // words between limbs carry canaries and are poisoned under ASan. Exactly (size-1)*sl+n words.
